@@ -47,7 +47,7 @@ CFG = dict(
         "min_exactOutside", "max_exactInside", "subtract_exactInside", "union_exactOutside", "intersect_exactInside",
         "translate_exactAt", "translate_exactOutside", "translate_exactInside",
         "sphere_exactOutside", "sphere_exactInside", "roundedCone_exactOutside", "roundedCone_exactInside", "varLine_exactOutside",
-        "union_not_exact_inside", "union_not_exactAt_inside",
+        "union_not_exact_inside", "union_not_exactAt_inside", "intersect_not_exact_outside",
         # round 2 — the hand models of the variadic glue equal the interpretation of the statement lists extracted from the source (Props/C19Src.lean)
         "union_eq_shape", "intersect_eq_shape", "varLine_loop", "varLine_eq_shape",
     ],
@@ -70,10 +70,10 @@ CFG = dict(
         "RoundedCone: the sign set is given as the union of the open balls B(a+t(b-a), r1+t(r2-r1)), t in [0,1] (roundedCone_neg_iff_all), as the Mathlib convex hull of the two open end balls in EuclideanSpace R (Fin 3) (roundedCone_neg_iff_convexHull_all, via the coordinate bridge toE), and under the guard as the three profile regions (roundedCone_neg_iff_profile); 'interior of the convex hull of the closed balls' is read as that convex hull of open balls",
         "RoundedCone near tangency in float64 (|r1-r2| within rounding of |b-a|): a2 is a difference of nearly equal numbers, which side of the early return is taken is decided by rounding; both regimes agree in the limit; sampled by the stream (rcone.near_tangent), not a theorem (IEEE rounding)",
         "exact distance: both directions (lower bound |f p| <= dist(p, s) for every zero-set point s, and a zero-set point at distance exactly |f p|) are proved for ALL seven primitives and every p: sphere (sphere_exact, centre included), plane (unit normal), box, capsule (line_exact; radius >= 0, a != b), rounded box (roundedBox_exact; size >= 0, rounding >= 0 — with a NEGATIVE rounding the inner offset of a box is not its max-norm level set and the field is only a bound: not claimed), rounded cylinder (roundedCylinder_exact; rounding rb >= 0, core radius 2*radius - rb >= 0, half height >= 0), rounded cone (roundedCone_exact_all)",
-        "combinators and exactness (round 2, Props/C19Compose.lean): Union keeps exactness OUTSIDE, Intersect and Subtract keep it INSIDE (operands 1-Lipschitz and exact on that side), Translate keeps it everywhere; INSIDE a union the field is only a lower bound of the distance — union_not_exact_inside / union_not_exactAt_inside are a closed witness (two unit balls at distance 1, midpoint: field -1/2, every zero-set point at squared distance >= 3/4). The property claims only sign and the Lipschitz bound for the combinators; exactness outside an intersection / subtraction fails in the same way (no witness theorem stated)",
+        "combinators and exactness (round 2, Props/C19Compose.lean): Union keeps exactness OUTSIDE, Intersect and Subtract keep it INSIDE (operands 1-Lipschitz and exact on that side), Translate keeps it everywhere; INSIDE a union the field is only a lower bound of the distance — union_not_exact_inside / union_not_exactAt_inside are a closed witness (two unit balls at distance 1, midpoint: field -1/2, every zero-set point at squared distance >= 3/4). The property claims only sign and the Lipschitz bound for the combinators; outside an intersection it fails in the same way (intersect_not_exact_outside: two balls of radius 5 at (∓3,0,0), p = (0,35/4,0): field 17/4, every zero-set point at distance >= 19/4), likewise outside a subtraction (same mechanism, no separate witness)",
         "rounded box: negative exactly on the Minkowski sum of the closed box with the open ball of the rounding radius (roundedBox_neg_iff_minkowski). Rounded cylinder with rounding rb > 0, 2·radius − rb >= 0 and height >= 0: negative exactly on the Minkowski sum of the core cylinder (radius 2·radius − rb — sic, the source doubles the radius — half height bodyHeight) with the open ball of radius rb (roundedCylinder_neg_iff_minkowski); both are also exact distances to those Minkowski sums' boundaries (roundedBox_exact, roundedCylinder_exact)",
         "subtract: f<0 iff base<0 and 0<sub (strictly outside the subtracted shape): on the subtracted shape's surface f=0, so 'difference of interiors' is read as interior(A) minus closure(B)",
-        "capsule with start = end is excluded (guard a ≠ b; the property quantifies over sizes > 0); in float64 the Go code returns NaN there",
+        "capsule with start = end is excluded from the theorems (guard a ≠ b; the property quantifies over sizes > 0): in float64 the Go closure returns NaN for every sample there (0/0 in heading.Normalized()), and so does the regenerated definition at Float — pinned by the c19.line lines tagged line.degenerate_nan (NaN canonicalised); the ℝ reading (x/0 = 0) would give the sphere of the common end point and is deliberately not stated as a theorem",
         "plane: the 1-Lipschitz and exact-distance theorems need a unit normal (n·n = 1); for an arbitrary normal the field is the distance scaled by |n|, both directions proved (plane_lipschitz_scaled, plane_exact_scaled_le, plane_exact_scaled_attained for n != 0; n = 0 gives the constant h: plane_zero_normal); sign and zero set need no normalisation",
         "sphere_eq, plane_eq, line_eq, roundedBox_eq, translate_spec are definitional unfoldings (rfl) listed for reference: they fix what the regenerated closures compute, they are not property clauses",
         "Union / Intersect / VarryingThicknessLine are variadic loops over closures, outside the arithmetic translator's subset: their statement lists are EXTRACTED from the source on every run (go/facts c19.ops -> Gen/SdfOpsShape.lean: the panic guard, the 1- and 2-operand special cases with their math.Min/Max, the fold's initial index, loop start and operator; for the line: the length guard, loop start, which neighbours are paired, the argument order of RoundedCone, the final Union) and interpreted by Model/SdfOpsIR.lean; the hand models the theorems speak about (Model/SdfOps.lean, Model/SdfVarLine.lean, built on the REGENERATED RoundedCone) are proved equal to that interpretation for every operand list and scalar (union_eq_shape, intersect_eq_shape, varLine_eq_shape), and the driver answers the c19.union / c19.intersect / c19.varline lines (0..5 points incl. the panic for fewer than two, repeated points, swallowing radii; 0..k operands) from the interpretation. Trusted there: the recogniser (it refuses every statement form it does not know) and the 40-line interpreter — no longer a transcription by hand",
